@@ -34,6 +34,11 @@ def error_entries():
         {"message": "extra keys", "foo": "bar", "extensions": None},
         {"message": ""},
         {"message": "unicode ☃ \"quoted\""},
+        # still "a list of objects each carrying a message": the other members have whatever shape the server gave them, and are carried as they are
+        {"message": "extensions is a string", "extensions": "INTERNAL_SERVER_ERROR"},
+        {"message": "extensions is a list", "extensions": ["a", "b"], "path": "not-a-list"},
+        {"message": "extensions is a number, locations a string", "extensions": 7, "locations": "3:4"},
+        {"message": "empty members", "extensions": {}, "locations": [], "path": []},
     ]
 
 
